@@ -154,6 +154,7 @@ def check_C18(ctx, tier):
         W.rule_W_KEY(ctx, d, paths)
         W.rule_W_LOOKUP(ctx, d)
         W.rule_W_IFACE(ctx, d)
+        W.rule_W_UPDATER(ctx, d)
     return ('key() returns the same normal form K the wrapper looks up and stores under (36 sites), lookup() returns GET(K) and lets '
             'KeyError escape, neither evaluates nor mutates; interface attributes are wired to the decorator\'s own cache/keymap/ignore.')
 
@@ -188,6 +189,7 @@ def check_C17(ctx, tier):
     K.rule_K_ORDER(ctx, ctx.repo)
     K.rule_K_REPR(ctx, ctx.repo)
     K.rule_K_HASH(ctx, ctx.repo)
+    K.rule_K_OWN(ctx, ctx.repo)     # a key must not depend on what this process keyed before (module-level state on the key path)
     ctx.assume("process independence of the arguments' own repr/pickle is assumed by the property")
     return ('No process-dependent value (builtin hash, id, random, time, set iteration) reaches a key in the raw/string/pickle/named-hash '
             'configurations; keyword order is removed by the sorter; marker objects embedded in keys have constant reprs.')
@@ -203,6 +205,7 @@ def check_C12(ctx, tier):
     RR.rule_W_KEY_keygen(ctx, ctx.repo)
     RR.rule_R_GUARD_STR_KW(ctx, ctx.repo)
     RR.rule_R_NONE(ctx, ctx.repo)
+    RR.rule_R_PURE(ctx, ctx.repo)
     ctx.assume('numeric results of round(), and whether type(x)(items) can rebuild arbitrary iterables (range, generators), are not decided')
     return ('state.roundargs is rounded(tol) of the identity with rounded chosen by deep; the key path goes through it and the function '
             'receives the originals (W-KEY, W-ARGS, also in klepto.keygen); every round() is dominated by isinstance(x, float); tol=None '
@@ -249,6 +252,8 @@ def check_C04(ctx, tier):
     A.rule_A_COMMIT(ctx, ctx.repo, cache)
     A.rule_A_RED_COPY(ctx, ctx.repo, cache)
     A.rule_A_FACTORY_OPEN(ctx, ctx.repo, cache, do_open=False)
+    A.rule_A_VIS_STAGE(ctx, ctx.repo, cache)       # a fresh handle sees no key that was never stored
+    A.rule_A_ABS(ctx, ctx.repo, cache)
     ctx.tables['primitives'] = A.PRIMITIVES
     ctx.assume('equality of decoded values, original key types under json and stale .pyc reuse of the import-based reader are not decided')
     return ('No persistent archive method outside __init__/__drop__ assigns instance state (no handle-local content cache); every reader '
@@ -296,6 +301,7 @@ def check_C20(ctx, tier):
         W.rule_W_LOCAL(ctx, d)
     RR.rule_R_NONE(ctx, ctx.repo)
     A.rule_A_RED_COPY(ctx, ctx.repo, cache)
+    S.rule_S_RED(ctx, ctx.repo)
     ctx.require_instances('W-RED', 12, 'decorator __reduce__ methods')
     ctx.assume("dill's by-value closure pickling and lock-step equality of the clone are not decided")
     return ('Each decorator\'s __reduce__ rebuilds the class from __state__ with every __init__ parameter in its own position (or the '
